@@ -4,6 +4,7 @@ from fractions import Fraction
 
 import fsamodel as F
 import translate_wfsa as TW
+import translate_fromstring as TFS
 from fsacheck import WTable, run_w, coq_str
 from common import dec_val, close_enough
 
@@ -76,7 +77,7 @@ def coq_expr(tab, e):
         return f"(@wlift QcSR (Some {e['x']}%nat) {cq(Fraction(e['w']))})"
     if op == "from_string":
         # the Coq model of WFSA.from_string (C12_from_string is about this definition)
-        return f"(@StarStringProofs.from_string QcSR {coq_str(e['xs'])} (mkq 1 1))"
+        return f"(Gen_FromString.gen_from_string QcSR {coq_str(e['xs'])} (mkq 1 1))"
     raise ValueError(op)
 
 
@@ -126,7 +127,13 @@ def run(ctx):
     except TW.Refuse as e:
         ctx.obligation("translate_wfsa", False, f"translator refused: {e}")
         tr_ok = False
-    ok, out = ctx.build(["proofs/WfsaProofs.vo", "proofs/RationalOps.vo", "proofs/GenWfsaBridge.vo", "proofs/StarStringProofs.vo", "model/EpsSpec.vo"]) if tr_ok else (False, "translator refused")
+    try:
+        ctx.cov["translators"].append({k: v for k, v in TFS.main().items() if k != "text"})   # WFSA.from_string (bridged in proofs/GenFromStringBridge.v)
+        ctx.obligation("translate_fromstring", True)
+    except TFS.Refuse as e:
+        ctx.obligation("translate_fromstring", False, f"translator refused: {e}")
+        tr_ok = False
+    ok, out = ctx.build(["proofs/WfsaProofs.vo", "proofs/RationalOps.vo", "proofs/GenWfsaBridge.vo", "proofs/StarStringProofs.vo", "proofs/GenFromStringBridge.vo", "model/EpsSpec.vo"]) if tr_ok else (False, "translator refused")
     if ok:
         ctx.prove("props/C12.v")
     else:
@@ -180,7 +187,7 @@ def run(ctx):
         if ctx.rng.random() < 0.5:
             es.append({"op": "reverse", "a": {"op": "from_string", "xs": []}})
         ctx.dist("reverse-isolated-state")
-    tab = WTable(ctx, "expr", extra_imports="From GV.proofs Require StarStringProofs.")
+    tab = WTable(ctx, "expr", extra_imports="From GV.gen Require Gen_FromString.")
     strs = [list(x) for x in F.strings(nT, 3)]
     for i, e in enumerate(es):
         ce = coq_expr(tab, e)
